@@ -14,7 +14,9 @@ DRIVER = "Driver/C28.lean"
 OBLIGATIONS = ["NiftyVerif.C28." + t for t in (
     "wsum_map_mul_div", "amp_normalised_power", "amp_normalised_amplitude", "spatialVar_normalised",
     "expected_spatial_variance", "zero_mode_only_mean", "product_mode_sum", "product_total_fluct", "single_space_fluct",
-    "matern_reported_partial")]
+    "matern_reported_partial", "hartley_columns", "hartley_variance_both_conventions", "binned_mode_sum",
+    "matern_realised_variance", "prodSel_false", "total2_general", "product_slice_sum", "slice_modes_general",
+    "total_modes_general", "total2_ofFn")]
 RULE = ("generated configurations: 1-D and 2-D regular grids of several shapes and distances, one or two sub-spaces, "
         "non-parametric (with/without flexibility and asperity) and Matern amplitudes, JAX kinds amplitude/power and "
         "renormalisation, both Hartley conventions, random hyper-parameter priors and latent inputs; (1) classic vs JAX "
@@ -454,8 +456,38 @@ def load_corpus():
     return out
 
 
+def hartley_kernel_check(ctx):
+    """the conclusions of `hartley_columns` (= hypotheses of `expected_spatial_variance`) on the REAL kernels, both conventions:
+    zero-mode column constant one, every other column sums to zero, every column has squared norm N; classic HartleyOperator too"""
+    E = env()
+    jft, ift = E["jft"], E["ift"]
+    from nifty.re.correlated_field import hartley
+    shapes = [(2,), (5,), (8,), (3, 4), (4, 4), (2, 3, 2)] if ctx.quick else [(2,), (3,), (5,), (8,), (9,), (3, 4), (4, 4), (5, 2), (2, 3, 2)]
+    for shape in shapes:
+        n = int(np.prod(shape))
+        kernels = {}
+        for conv in ("non_canonical_hartley", "canonical_hartley"):
+            jft.config.update("hartley_convention", conv)
+            kernels["re:" + conv] = np.stack([np.array(hartley(np.eye(n)[k].reshape(shape))).reshape(-1) for k in range(n)], axis=1)
+        jft.config.update("hartley_convention", "non_canonical_hartley")
+        sp = ift.RGSpace(shape)
+        ht = ift.HartleyOperator(sp.get_default_codomain(), sp)
+        kernels["cl"] = np.stack([ht(ift.makeField(ht.domain, np.eye(n)[k].reshape(shape))).asnumpy().reshape(-1)
+                                  for k in range(n)], axis=1) * sp.total_volume
+        for name, H in kernels.items():
+            impl = dict(zero_column_is_one=bool(np.allclose(H[:, 0], 1., atol=1e-12)),
+                        other_columns_sum_to_zero=bool(np.allclose(H[:, 1:].sum(axis=0), 0., atol=1e-10)),
+                        column_norm2_is_N=bool(np.allclose((H * H).sum(axis=0), n, rtol=1e-12)))
+            ctx.compare(dict(what="hartley kernel", shape=list(shape), kernel=name), impl,
+                        dict(zero_column_is_one=True, other_columns_sum_to_zero=True, column_norm2_is_N=True),
+                        note="hypotheses of expected_spatial_variance / conclusions of hartley_columns on the real transform",
+                        nontrivial=n > 2)
+        ctx.stat("hartley-kernels-checked")
+
+
 def run(ctx):
     cases = load_corpus()
+    hartley_kernel_check(ctx)
     for _ in range(ctx.n(9, 160)):
         cases.append(gen_case(ctx.rng))
     reqs, metas = [], []
